@@ -1081,16 +1081,18 @@ Section WalletProofs.
       apply op_clean_new in C. destruct C as [Cf Cp]. unfold Wallet.new_account. destruct (String.eqb_spec pwd "") as [->|Hp]; [assumption|].
       match goal with |- context[add_account_data w ?x] =>
         destruct (add_account_data w x) as [w' r] eqn:E;
-        eapply (add_keyed w g x w' r (ki_key key ki) pwd) in E; try assumption; try reflexivity end.
-      + destruct E as [[-> K']|[[-> | ->] ->]]; cbn [fst snd gstep]; assumption.
-      + cbn [a_blob a_addr]. rewrite Cp. reflexivity.
+        assert (Hb : a_blob blob x = enc (open_params blob w, a_addr blob x) pwd (ki_key key ki))
+          by (cbn [a_blob a_addr]; rewrite Cp; reflexivity);
+        destruct (add_keyed w g x w' r _ _ I K eq_refl Cf Hb Hp E) as [[-> K']|[[-> | ->] ->]]
+      end; cbn [fst snd gstep]; assumption.
     - (* ImportAccount *)
       apply op_clean_import in C. destruct C as (Cp & Cpw & Cf). unfold Wallet.import_account.
       match goal with |- context[add_account_data w ?x] =>
         destruct (add_account_data w x) as [w' r] eqn:E;
-        eapply (add_keyed w g x w' r k pwd) in E; try assumption; try reflexivity end.
-      + destruct E as [[-> K']|[[-> | ->] ->]]; cbn [fst snd gstep]; assumption.
-      + cbn [a_blob a_addr]. rewrite Cp. reflexivity.
+        assert (Hb : a_blob blob x = enc (open_params blob w, a_addr blob x) pwd k)
+          by (cbn [a_blob a_addr]; rewrite Cp; reflexivity);
+        destruct (add_keyed w g x w' r _ _ I K eq_refl Cf Hb Cpw E) as [[-> K']|[[-> | ->] ->]]
+      end; cbn [fst snd gstep]; assumption.
     - apply delete_keyed; assumption.
     - cbn [gstep]. apply set_default_keyed; assumption.
     - cbn [gstep]. apply set_label_keyed; assumption.
